@@ -515,8 +515,8 @@ Section PureSem.
     sequence (map (names_pure canon g n2 R) cs) = Some es2 -> es1 = es2.
   Proof.
     intros H1 H2.
-    assert (A := sequence_mono canon g _ _ R (names_pure_mono canon g n1 (Nat.max n1 n2) ltac:(lia)) cs es1 H1).
-    assert (B := sequence_mono canon g _ _ R (names_pure_mono canon g n2 (Nat.max n1 n2) ltac:(lia)) cs es2 H2).
+    assert (A := sequence_mono _ _ R (names_pure_mono canon g n1 (Nat.max n1 n2) ltac:(lia)) cs es1 H1).
+    assert (B := sequence_mono _ _ R (names_pure_mono canon g n2 (Nat.max n1 n2) ltac:(lia)) cs es2 H2).
     congruence.
   Qed.
 
@@ -558,7 +558,7 @@ Section PureSem.
         assert (Es' := sequence_spec _ _ Es).
         assert (Hx : In (Some e) (map (names_pure canon g k R) (chain fl))) by (rewrite Es'; apply in_map; exact He).
         apply in_map_iff in Hx. destruct Hx as [c [Hc Hcin]].
-        intros w'. apply (IH R c e Hc); [|].
+        intros w'. destruct (IH R c e Hc) with (w := w') as [Hok _]; [|exact Hok].
         intros l Hl. specialize (Hctx l Hl). assert (lv c < lv f) by (eapply Hchain; eauto). lia.
       + intros a Ha. left. eexists. split; [|exact Ha].
         exists fl. repeat split; auto. exists k, fl, es. repeat split; auto.
@@ -600,7 +600,8 @@ Section PureSem.
     destruct (nth_error (flows g) f) as [fl|] eqn:Hf; [|discriminate].
     intros H Hctx w.
     assert (Hnormal : forall pe, pnames_with canon g (names_pure canon g k) R fl = Some pe ->
-              row_ok (PM.find w (own_env (own fl) pe)) /              forall a, T (own_env (own fl) pe) w a -> NSem g w (erow w) R f a).
+              row_ok (PM.find w (own_env (own fl) pe)) /\
+              forall a, T (own_env (own fl) pe) w a -> NSem g w (erow w) R f a).
     { intros pe Hpe. destruct (pnames_sound k R f fl pe IH Hf Hctx Hpe w) as [Hok Hs].
       unfold T. rewrite find_own_env. destruct (bind_of w (own fl)) as [b|] eqn:Eb.
       - split; [exists b; left; reflexivity|]. intros a [<-|[]]. exists []. apply np_final. left. exists b.
